@@ -347,14 +347,13 @@ func (p *refParser) primary() ast.Node {
 }
 
 // refCompare checks one source text: the real parser against the reference grammar
-func (c *Ctx) refCompare(stage, src string) {
+func (c *Ctx) refCompare(stage, src string, got parseOutcome) {
 	r := c.R
 	toks, err := lexer.Lex(fileSource(src))
 	if err != nil {
 		return
 	}
 	want, ok, why := refParse(toks)
-	got := implParse(src)
 	r.Count("ref:"+stage, 1)
 	switch {
 	case ok && got.tree == nil:
@@ -370,5 +369,72 @@ func (c *Ctx) refCompare(stage, src string) {
 		r.Count("ref:accepted", 1)
 	default:
 		r.Count("ref:rejected", 1)
+	}
+}
+
+// eraseText mirrors `eraseText` of Props/C11.lean: parentheses and `#` dropped, `?.` read as `.`, kinds forgotten
+func eraseText(toks []lexer.Token) []string {
+	var out []string
+	for _, t := range toks {
+		if (t.Kind == lexer.Bracket && (t.Value == "(" || t.Value == ")")) || (t.Kind == lexer.Operator && t.Value == "#") {
+			continue
+		}
+		if t.Value == "?." {
+			out = append(out, ".")
+		} else {
+			out = append(out, t.Value)
+		}
+	}
+	return out
+}
+
+// eraseCheck tests the statement `parse_erase_goal` of Props/C11.lean on one accepted input
+func (c *Ctx) eraseCheck(src string, tree ast.Node) {
+	r := c.R
+	toks, err := lexer.Lex(fileSource(src))
+	if err != nil {
+		return
+	}
+	for i, t := range toks {
+		if i+1 < len(toks) {
+			n := toks[i+1]
+			if t.Kind == lexer.Operator && t.Value == "?" && n.Kind == lexer.Operator && n.Value == ":" {
+				r.Count("erase:skipped", 1)
+				return
+			}
+			if t.Kind == lexer.Operator && t.Value == "," && n.Kind == lexer.Bracket && (n.Value == "]" || n.Value == "}") {
+				r.Count("erase:skipped", 1)
+				return
+			}
+		}
+		if t.Kind == lexer.Number {
+			plain := false
+			if !strings.ContainsAny(t.Value, "xX_") {
+				if strings.ContainsAny(t.Value, ".eE") {
+					if f, err := strconv.ParseFloat(t.Value, 64); err == nil && fmtFloat(f) == t.Value {
+						plain = true
+					}
+				} else if n, err := strconv.ParseInt(t.Value, 10, 64); err == nil && strconv.FormatInt(n, 10) == t.Value {
+					plain = true
+				}
+			}
+			if !plain {
+				r.Count("erase:skipped", 1)
+				return
+			}
+		}
+	}
+	pr := &printer{c: c, policy: polMinimal}
+	printed := strings.Join(pr.expr(tree, 0, fNone), " ")
+	ptoks, err := lexer.Lex(fileSource(printed))
+	if err != nil {
+		r.Mismatch("erase", src, "printed text does not lex", printed)
+		return
+	}
+	a, b := strings.Join(eraseText(toks), "\x00"), strings.Join(eraseText(ptoks), "\x00")
+	r.Count("erase:checked", 1)
+	if a != b {
+		r.Violate(Violation{What: "an accepted token list is not the minimal printing of its tree up to parentheses (parse_erase_goal)",
+			Key: "c11:erase:" + constructKey(tree), Input: src, Expect: printed, Got: src})
 	}
 }
